@@ -894,7 +894,16 @@ func (d *driver) exploreSeal(r *rng.R, ci int, c *corpus, dir string, ingest boo
 func crashClass(s *sealTrace, sp crashSpec) string {
 	switch {
 	case len(sp.keep) > 0:
-		return "power-loss"
+		what := "tmp"
+		for _, k := range sp.keep {
+			if k.F == "Sdocs" && what == "tmp" {
+				what = "Sdocs"
+			}
+			if k.F == "Index" {
+				what = "Index"
+			}
+		}
+		return "power-loss-" + what
 	case sp.N > 0:
 		return "torn-" + s.ops[sp.J].F
 	case sp.J >= len(s.ops):
